@@ -146,7 +146,8 @@ func (x *Ctx) directCallers(obj *types.Func) []ssa.CallInstruction {
 // converted to a named function type) or inside a variadic argument.
 func closureArgs(site ssa.CallInstruction) []*ssa.Function {
 	var out []*ssa.Function
-	add := func(v ssa.Value) {
+	var addD func(v ssa.Value, depth int)
+	addD = func(v ssa.Value, depth int) {
 		switch t := prog.Strip(v).(type) {
 		case *ssa.MakeClosure:
 			if f, ok := t.Fn.(*ssa.Function); ok {
@@ -156,8 +157,20 @@ func closureArgs(site ssa.CallInstruction) []*ssa.Function {
 			if t.Parent() != nil { // an anonymous function without free variables
 				out = append(out, t)
 			}
+		case *ssa.Call:
+			// a helper that builds and returns the callback
+			if callee := t.Call.StaticCallee(); callee != nil && depth < 2 && len(callee.Blocks) > 0 {
+				if _, isSig := t.Type().Underlying().(*types.Signature); isSig {
+					for _, r := range prog.Returns(callee) {
+						if len(r.Results) == 1 {
+							addD(r.Results[0], depth+1)
+						}
+					}
+				}
+			}
 		}
 	}
+	add := func(v ssa.Value) { addD(v, 0) }
 	for _, a := range site.Common().Args {
 		add(a)
 		if sl, ok := a.(*ssa.Slice); ok {
